@@ -6,7 +6,9 @@ use crate::keyop::{make_key, ref_composite};
 use crate::panicx::catch;
 use crate::{dump, frame, Ctx};
 use keepass::db::*;
-use keepass::Database;
+use crate::rng::Rng;
+use keepass::config::*;
+use keepass::{Database, DatabaseKey};
 use serde_json::{json, Value as J};
 use std::collections::{HashMap, HashSet};
 use xml::reader::{EventReader, XmlEvent};
@@ -212,13 +214,45 @@ fn collect_protected(db: &Database, out: &mut Vec<Vec<u8>>) {
     group(&db.root, out);
 }
 
+/// a small database with one attachment sized so that the (uncompressed, stream-enciphered) payload has exactly `target` bytes
+pub fn big_db(rng: &mut Rng, target: usize, key: &DatabaseKey, comp: &[u8]) -> Database {
+    let mut db = Database::new(DatabaseConfig {
+        version: DatabaseVersion::KDB4(0),
+        outer_cipher_config: OuterCipherConfig::ChaCha20,
+        compression_config: CompressionConfig::None,
+        inner_cipher_config: InnerCipherConfig::ChaCha20,
+        kdf_config: KdfConfig::Aes { rounds: 1 },
+    });
+    let mut e = Entry::default();
+    e.uuid = uuid::Uuid::from_bytes([7; 16]);
+    e.fields.insert("Title".into(), Value::Unprotected("big".into()));
+    db.root.children.push(Node::Entry(e));
+    db.header_attachments.push(HeaderAttachment { flags: 1, content: rng.bytes(1000) });
+    let mut buf = Vec::new();
+    db.save(&mut buf, key.clone()).unwrap();
+    let un = kdbx::unwrap_kdbx4(&buf, comp).unwrap();
+    let p0: usize = un.blocks.iter().sum();
+    db.header_attachments[0].content = rng.bytes(1000 + target - p0);
+    db
+}
+
 struct ChunkSink {
     buf: Vec<u8>,
     cap: usize,
+    /// the sink fails once it holds this many bytes (a full disk, a closed pipe)
+    limit: Option<usize>,
+    failed: bool,
 }
 impl std::io::Write for ChunkSink {
     fn write(&mut self, b: &[u8]) -> std::io::Result<usize> {
-        let n = b.len().min(self.cap);
+        let mut n = b.len().min(self.cap);
+        if let Some(l) = self.limit {
+            if self.buf.len() >= l && !b.is_empty() {
+                self.failed = true;
+                return Err(std::io::Error::new(std::io::ErrorKind::Other, "sink failed"));
+            }
+            n = n.min(l - self.buf.len());
+        }
         self.buf.extend_from_slice(&b[..n]);
         Ok(n)
     }
@@ -231,22 +265,31 @@ pub fn run(ctx: &mut Ctx, hostile: bool) {
     let count = if hostile { ctx.count(800, 20000) } else { ctx.count(300, 5000) };
     let mut seen_random: HashSet<Vec<u8>> = HashSet::new();
     let mut samples: HashMap<(String, usize), Vec<Vec<u8>>> = HashMap::new(); // per (value, length): all draws of this run
-    for _ in 0..count {
+    // two extra databases whose encrypted payload is exactly 1 MiB and one and a half MiB (block-size boundaries of the
+    // HMAC block stream: KeePass splits at 1 MiB, this library writes one block)
+    let extra = if hostile { 0 } else { 2 };
+    for ci in 0..count + extra {
         let mut rng = ctx.rng.fork();
         let creds = frame::gen_creds(&mut rng);
-        let (db, features) = {
+        let comp = ref_composite(&creds.pw, &creds.kf).unwrap();
+        let key = make_key(&creds.pw, &creds.kf);
+        let (db, features) = if ci >= count {
+            let target = if ci == count { 1usize << 20 } else { (1usize << 20) + (1 << 19) + 13 };
+            (big_db(&mut rng, target, &key, &comp), std::collections::BTreeSet::new())
+        } else {
             let mut g = Gen::new(&mut rng, hostile);
             let db = g.database();
             (db, g.features.clone())
         };
-        let comp = ref_composite(&creds.pw, &creds.kf).unwrap();
-        let key = make_key(&creds.pw, &creds.kf);
         let before = dump::database(&db);
         let now = Times::now().and_utc().timestamp();
         // the sink accepts at most `cap` bytes per call (a pipe, a socket, a compressing adaptor): a conforming `Write`
         let cap = *rng.pick(&[usize::MAX, usize::MAX, 1usize, 7, 100, 4096]);
-        let mut sink = ChunkSink { buf: Vec::new(), cap };
+        // every sixth sink fails part-way (never for the two large databases): save must then report the failure
+        let limit = if ci < count && rng.chance(1, 6) { Some(rng.below(700) as usize) } else { None };
+        let mut sink = ChunkSink { buf: Vec::new(), cap, limit, failed: false };
         let saved = catch(|| db.save(&mut sink, key.clone()));
+        let sink_failed = sink.failed;
         let buf = sink.buf;
         let unchanged = dump::database(&db) == before;
         let save_s = match &saved {
@@ -263,7 +306,7 @@ pub fn run(ctx: &mut Ctx, hostile: bool) {
             "keystream": "",
         });
         let mut checks = json!({"unchanged": unchanged});
-        let mut real = json!({"save": save_s});
+        let mut real = json!({"save": save_s, "sink_failed": sink_failed});
         if let Ok(Ok(())) = &saved {
             // (a) independent strict unwrap
             match kdbx::unwrap_kdbx4(&buf, &comp) {
